@@ -214,8 +214,13 @@ int main(int argc, char **argv)
       {
         bool full = atoi(argv[6]) != 0;
         mk("tamper", "none", -1, -1, C, key, P, key, C); // the authentic file itself
+        // WV_STRIDE=k (mid-size files): every position of the header, the IV table, the first and the last
+        // 64 body bytes, and every k-th byte in between
+        const size_t stride = getenv("WV_STRIDE") ? (size_t)atoi(getenv("WV_STRIDE")) : 1;
         for (size_t p = 0; p < C.size(); ++p)
         {
+          if (stride > 1 && p >= 48 + 20 * (size_t)T + 64 && p + 64 < C.size() && p % stride != 0)
+            continue;
           std::vector<int> vals = {C[p] ^ 0x01, C[p] ^ 0x80, 0x00, 0xFF};
           if (p == 8 || p == 9)
             for (int v : {0, 1, 2, 3, 4, 5, 6, 7, 127, 255})
@@ -232,7 +237,7 @@ int main(int argc, char **argv)
             add("set", p, v, t);
           }
         }
-        for (size_t len = 0; len < C.size(); len += (full || len < 80 || len + 20 > C.size()) ? 1 : 5)
+        for (size_t len = 0; len < C.size(); len += (stride > 1 && len >= 200 && len + 40 < C.size()) ? stride : (full || len < 80 || len + 20 > C.size()) ? 1 : 5)
           add("truncate", len, -1, std::vector<u8_t>(C.begin(), C.begin() + len));
         for (int k : {1, 16, 20, 32})
         {
